@@ -5,9 +5,29 @@ import dbgen
 
 
 def _support(db):
+    """(stored columns per row, {column: stored value} per row).  A stored explicit zero (a zero count or a False that an
+    addition or a cast left in the CSR structure) is NOT part of the support: C17 speaks of the non-zero positions."""
     o = dbgen.obs_db(db)
-    # stored columns = what db[i].indices reports (a float in (0,1) cast to a count is kept as a stored 0: not representable)
     return [sorted(j for j, v in r) for r in o['rows']], [dict(r) for r in o['rows']]
+
+
+def _nonzero(vals):
+    return [{j: v for j, v in row.items() if v != 0} for row in vals]
+
+
+def _expected(sk, k, vals):
+    """Non-zero cells of the source after the cast sk -> k (the oracle, written independently of the model): any non-zero
+    value is True as a bit; a float becomes its integer part as a count (values in (0,1) are not representable: they become
+    0 and leave the support); everything else is kept."""
+    out = []
+    for row in _nonzero(vals):
+        if k == 'KBit':
+            out.append({j: 1 for j in row})
+        elif k == 'KCount' and sk == 'KFloat':
+            out.append({j: int(v) for j, v in row.items() if int(v) != 0})
+        else:
+            out.append(dict(row))
+    return out
 
 
 def part(ctx):
@@ -37,12 +57,14 @@ def part(ctx):
                 if sup2 != sup:
                     found = True
                     ctx.fail('as_type %s -> %s changed the set of stored positions' % (sk, k), {'ops': dbgen.descs_of(h.steps)}, finding_key='as_type-support')
-                # values are representable unless a float is cast to a count / anything to bit
-                if k == 'KFloat' or (k == 'KCount' and sk != 'KFloat'):
-                    exp = [{j: (v if sk != 'KBit' else 1) for j, v in row.items()} for row in vals]
-                    if vals2 != exp:
-                        found = True
-                        ctx.fail('as_type %s -> %s changed representable values' % (sk, k), {'ops': dbgen.descs_of(h.steps)}, finding_key='as_type-values')
+                # non-zero positions and the values there (stored explicit zeros are not part of the support)
+                nz2, exp = _nonzero(vals2), _expected(sk, k, vals)
+                if [sorted(r) for r in nz2] != [sorted(r) for r in exp]:
+                    found = True
+                    ctx.fail('as_type %s -> %s changed the set of non-zero positions' % (sk, k), {'ops': dbgen.descs_of(h.steps)}, finding_key='as_type-nonzero-support')
+                elif nz2 != exp:
+                    found = True
+                    ctx.fail('as_type %s -> %s changed representable values' % (sk, k), {'ops': dbgen.descs_of(h.steps)}, finding_key='as_type-values')
                 # and back
                 rb = h.op_as_type(len(h.pool) - 1, sk, True)
                 if rb[0] == 'ok' and k != 'KBit' and not (k == 'KCount' and sk == 'KFloat') and not bool(rb[1] == d):
